@@ -81,6 +81,12 @@ class VExecutor(Executor):
                 self.gate_log.append(("qfree", (address,), (), (um[address],)))
         yield from super()._free_physical_qubit(subroutine_id, address)
 
+    def _clear_phys_qubit_in_memory(self, physical_address):
+        # the backend hook that resets a physical qubit: WHICH qubit it is asked to reset is part of the quantum history
+        if getattr(self, "log_clear", False):
+            self.gate_log.append(("clear", (), (), (physical_address,)))
+        yield from super()._clear_phys_qubit_in_memory(physical_address)
+
     def _wait_to_handle_epr_responses(self):
         # The base class calls itself recursively until the response can be handled
         # (RecursionError); every simulator overrides this.  Retrying is a separate,
